@@ -208,7 +208,7 @@ Definition all_tomb A (ss : list (A * list N)) : list N := flat_map snd ss.
 
 (* (U live_i) \ (U tomb_i) *)
 Definition spec_live (ss : list tstate) : list N :=
-  filter (fun x => negb (mem x (all_tomb ss))) (all_live ss).
+  nodup N.eq_dec (filter (fun x => negb (mem x (all_tomb ss))) (all_live ss)).
 
 (* ================================================================== correspondence check *)
 (* lists as sets: equal length and mutual inclusion (the harness sends sorted, duplicate-free
